@@ -332,6 +332,65 @@ fn events_json(evs: Vec<jrsonnet_evaluator::verif::Event>, dir: &Path) -> Value 
 	Value::Array(out)
 }
 
+/// `demand`: evaluate `src` to an array or object, then perform a sequence of element / field
+/// demands through the Rust API, reporting outcome and std.trace labels of each demand.
+pub fn cmd_demand(cmd: &Value) -> Value {
+	let src = cmd["src"].as_str().unwrap_or("null");
+	let want_events = cmd["want_events"].as_bool().unwrap_or(false);
+	let dir = tmp_root();
+	let ctx_init = ContextInitializer::new(PathResolver::Absolute);
+	ctx_init.settings_mut().trace_printer = Rc::new(CollectingTracePrinter);
+	let mut b = State::builder();
+	b.import_resolver(FileImportResolver::new(vec![]));
+	b.context_initializer(ctx_init.clone());
+	let s = b.build();
+	if want_events {
+		jrsonnet_evaluator::verif::install();
+	}
+	TRACES.with_borrow_mut(Vec::clear);
+	let mut obs = Vec::new();
+	let out = {
+		let _entered = s.enter();
+		match s.evaluate_snippet("<snippet>".to_owned(), src) {
+			Err(e) => json!({"k":"err","class":error_class(e.error()),"msg":e.error().to_string()}),
+			Ok(v) => {
+				let setup_traces = TRACES.with_borrow_mut(std::mem::take);
+				for d in cmd["demands"].as_array().cloned().unwrap_or_default() {
+					let r: jrsonnet_evaluator::Result<Option<Val>> = match (&v, &d) {
+						(Val::Arr(a), d) if d.get("i").is_some() => {
+							a.get(d["i"].as_u64().unwrap_or(0) as usize)
+						}
+						(Val::Obj(o), d) if d.get("f").is_some() => {
+							o.get(d["f"].as_str().unwrap_or("").into())
+						}
+						_ => panic!("demand does not fit value"),
+					};
+					let traces: Vec<Value> = TRACES
+						.with_borrow_mut(std::mem::take)
+						.into_iter()
+						.map(|t| t["v"].clone())
+						.collect();
+					obs.push(match r {
+						Ok(Some(x)) => match x.manifest(JsonFormat::minify()) {
+							Ok(t) => json!({"k":"val","out":t,"traces":traces}),
+							Err(e) => json!({"k":"err","class":error_class(e.error()),"msg":e.error().to_string(),"traces":traces}),
+						},
+						Ok(None) => json!({"k":"absent","traces":traces}),
+						Err(e) => json!({"k":"err","class":error_class(e.error()),"msg":e.error().to_string(),"traces":traces}),
+					});
+				}
+				json!({"k":"demanded","setup_traces":setup_traces,"obs":obs})
+			}
+		}
+	};
+	let mut out = out;
+	if want_events {
+		out["events"] = events_json(jrsonnet_evaluator::verif::take(), &dir);
+	}
+	out["depth_after"] = json!(jrsonnet_evaluator::stack::verif::current_depth());
+	out
+}
+
 pub fn cmd_eval(cmd: &Value) -> Value {
 	let dir = fresh_dir();
 	if let Some(Value::Object(files)) = cmd.get("files") {
